@@ -276,7 +276,7 @@ fn symmetric_setup(rng: &mut Rng, emax: usize) -> Option<Setup> {
 
 pub fn run(ctx: &Ctx) -> i32 {
     let emax = if ctx.quick() { 6 } else { 8 };
-    let n_items = ctx.n(160, 2000);
+    let n_items = ctx.n(300, 2000);
     let acc = par_items(ctx, "C06", n_items, |item, rng, acc| graph_case(item, rng, acc, emax));
     let fin = Finish::new(
         "accepted connected graphs (E<=6 quick / 8 thorough); EVERY subset with >=2 edges is driven to by sector-directed coordinates, then u is set to: the f64 neighbours (+-0..3 ulp) of every cumulative boundary, an interior point of every interval, 0, 5e-324, 2^-53, 1-2^-51, 1-2^-52, 1-2^-53. \
